@@ -176,6 +176,10 @@ func Run(context *hookstate.Context, args []string, uid uint32) (stdout, stderr 
 		}
 	}
 
+	if verifCommandHandler != nil {
+		parser.CommandHandler = verifCommandHandler
+	}
+
 	_, err = parser.ParseArgs(args)
 	return stdoutBuffer.Bytes(), stderrBuffer.Bytes(), err
 }
